@@ -108,6 +108,8 @@ def load_si():
     proxies.FORMAT_CONCRETIZE = True      # StridedInterval.__hash__ formats its fields; sets of intervals depend on it
     if "si" in _ns_cache:
         return _ns_cache["si"]
+    import logging
+    logging.getLogger("claripy.backends.backend_vsa.strided_interval").setLevel(logging.ERROR)   # "Tried to cast_low ..." warnings per path
     wm = loader.load(WM_PATH, "claripy.backends.backend_vsa.warren_methods")
     ns = loader.load(SI_PATH, "claripy.backends.backend_vsa.strided_interval",
                      overrides={"math": MathContract(), "min_or": wm["min_or"], "max_or": wm["max_or"]})
@@ -336,6 +338,87 @@ def ob_compare(op, w, tier="quick", iw=None, replay=None):
         return "ret:" + "".join(sorted(str(v)[0] for v in vals))
 
     return explore(body, _opts(w, tier, replay=_rp("replay_transfer", op=op, w=w)))
+
+
+def ob_resize(op, w, tier="quick", iw=None, wb=None):
+    """extract / zero_extend / sign_extend (integer parameters enumerated completely for the width) and concat (second operand of
+    every width 1..wb_max): the reference result of every member is in gamma(result), and the result has the width of [[op]]."""
+    ns = load_si()
+    wb_max = wb or 1
+    proxies.set_iw(iw or (2 * (w + wb_max) + 6))
+    IW = proxies.get_iw()
+
+    def body(c):
+        a = sym_si(ns, "a", w)
+        x = sym_member("x", a)
+        b = None
+        if op == "extract":
+            pairs = [(h, l) for h in range(w) for l in range(h + 1)]
+            h, l = pairs[c.choose([True] * len(pairs), "bounds")]
+            c.ghost["param"] = (h, l)
+            c.watch["high"], c.watch["low"] = z3.BitVecVal(h, IW), z3.BitVecVal(l, IW)
+            f = lambda: a.extract(h, l)
+            wr = h - l + 1
+            val = zx(z3.LShR(x, z3.BitVecVal(l, IW)) & z3.BitVecVal((1 << wr) - 1, IW), wr)
+        elif op in ("zero_extend", "sign_extend"):
+            n = w + c.choose([True] * 3, "extend-to")
+            c.watch["new_length"] = z3.BitVecVal(n, IW)
+            f = lambda: getattr(a, op)(n)
+            wr = n
+            val = x if op == "zero_extend" else zx(sx(x, w), n)
+        else:  # concat
+            wb = wb_max
+            c.watch["b_bits"] = z3.BitVecVal(wb, IW)
+            b = sym_si(ns, "b", wb)
+            y = sym_member("y", b)
+            f = lambda: a.concat(b)
+            wr = w + wb
+            val = (x << wb) | y
+        apply_known(c, f"si.{op}/gamma", a, b, w)
+        ok, r = _call(c, op, f)
+        if not ok:
+            return "raised"
+        _result_check(c, op, r, val, wr, ns)
+        return "ret"
+
+    return explore(body, _opts(max(w, wb_max), tier, replay=_rp("replay_resize", op=op, w=w)))
+
+
+def replay_resize(task, failure):
+    from claripy.backends.backend_vsa import StridedInterval as SI
+    kw = task["kwargs"]
+    op, w = kw["op"], kw["w"]
+    wit = failure["witness"]
+    a = SI(bits=w, stride=wit["a_stride"], lower_bound=wit["a_lb"], upper_bound=wit["a_ub"])
+    x = wit["x"]
+    assert x in py_members(a), "witness member not in gamma(a)"
+    mk = f"SI(bits={w},stride={wit['a_stride']},lower_bound={wit['a_lb']},upper_bound={wit['a_ub']})"
+    try:
+        if op == "extract":
+            h, l = wit["high"], wit["low"]
+            r = a.extract(h, l); ref = (x >> l) & ((1 << (h - l + 1)) - 1); call = f"{mk}.extract({h},{l})"; wr = h - l + 1
+        elif op in ("zero_extend", "sign_extend"):
+            n = wit["new_length"]
+            r = getattr(a, op)(n); ref = x if op == "zero_extend" else _tosigned(x, w) % (1 << n); call = f"{mk}.{op}({n})"; wr = n
+        else:
+            wb = wit["b_bits"]
+            b = SI(bits=wb, stride=wit["b_stride"], lower_bound=wit["b_lb"], upper_bound=wit["b_ub"])
+            y = wit["y"]
+            assert y in py_members(b)
+            r = a.concat(b); ref = (x << wb) | y; wr = w + wb
+            call = f"{mk}.concat(SI(bits={wb},stride={wit['b_stride']},lower_bound={wit['b_lb']},upper_bound={wit['b_ub']}))"
+    except Exception as e:  # noqa
+        return {"reproduced": True, "text": f"{op} on {a} raised {type(e).__name__}: {e}"}
+    mem = py_members(r)
+    bad = r.bits != wr or ref not in mem
+    return {"reproduced": bad, "text": f"{call} = {r!r} ({r.bits} bits) members={sorted(mem)}; member x={x} gives {ref}",
+            "script": f"from claripy.backends.backend_vsa import StridedInterval as SI\nprint({call})"}
+
+
+def replay_finding_resize(f):
+    w = dict(f["witness"])
+    t = {"kwargs": {"op": w.pop("op"), "w": w.pop("w")}}
+    return replay_resize(t, {"witness": w})
 
 
 KNOWN_PREDS = {}
@@ -681,3 +764,47 @@ def replay_finding22(f):
         if k in w:
             kw[k] = w.pop(k)
     return replay_c22({"kwargs": kw}, {"witness": w})
+
+
+# ---- __hash__: Python sets of intervals (DiscreteStridedIntervalSet._si_set, udiv, _multi_valued_intersection) -------------------
+
+def ob_hash(w, tier="quick"):
+    """StridedInterval.__eq__ returns a (truthy) BoolResult, so a Python set keeps only ONE of two intervals whose hashes are equal.
+    Obligation on the real __hash__: the key it hashes determines the member set -  key(a) == key(b)  ==>  gamma(a) == gamma(b).
+    The builtin `hash` is bound to a capturing stand-in that returns its argument (assumed: Python's hash of two different keys of
+    this shape does not collide), the fields are formatted through CPython's real format() on every feasible value."""
+    proxies.FORMAT_CONCRETIZE = True
+    import logging
+    logging.getLogger("claripy.backends.backend_vsa.strided_interval").setLevel(logging.ERROR)
+    ns = loader.load(SI_PATH, "claripy.backends.backend_vsa.strided_interval", overrides={"math": MathContract()},
+                     extra_shadow={"hash": lambda key: ("KEY", key)})
+    proxies.set_iw(3 * w + 6)
+    iw = proxies.get_iw()
+
+    def body(c):
+        a = sym_si(ns, "a", w)
+        b = sym_si(ns, "b", w)
+        ka = a.__hash__()
+        kb = b.__hash__()
+        if not (isinstance(ka, tuple) and ka and ka[0] == "KEY"):
+            c.fail("__hash__/shape", "__hash__ does not hash a key built from the fields (the obligation cannot see what it depends on)")
+            return "shape"
+        if ka != kb:
+            c.check("__hash__/different-keys", True, "different keys: both intervals are kept")
+            return "different"
+        same = z3.And(*[member(z3.BitVecVal(v, iw), a, w) == member(z3.BitVecVal(v, iw), b, w) for v in range(1 << w)])
+        c.check("__hash__/separates-member-sets", same, "two intervals with different member sets have the same hash key: a set of intervals silently drops one of them")
+        return "same-key"
+
+    return explore(body, _opts(w, tier, replay=_rp("replay_hash", w=w)))
+
+
+def replay_hash(task, failure):
+    from claripy.backends.backend_vsa import StridedInterval as SI
+    w = task["kwargs"]["w"]
+    wit = failure["witness"]
+    a = SI(bits=w, stride=wit["a_stride"], lower_bound=wit["a_lb"], upper_bound=wit["a_ub"])
+    b = SI(bits=w, stride=wit["b_stride"], lower_bound=wit["b_lb"], upper_bound=wit["b_ub"])
+    kept = {a, b}
+    lost = (py_members(a) | py_members(b)) - set().union(*[py_members(s) for s in kept])
+    return {"reproduced": bool(lost), "text": f"the Python set {{{a}, {b}}} keeps {sorted(map(str, kept))}; members lost: {sorted(lost)}"}
